@@ -46,6 +46,30 @@ CHECKS = {
          'DESIGN.md 5.11, 6/C20'),
 }
 
+
+CHECKS.update({
+ 'C01': (True, 'model_checking',
+         'TLA+ layout algebra NdnPackets checked by TLC over an enumerated configuration space; TLC-enumerated expected element layouts replayed on make_interest/make_data/parse_*; recorded calls judged by TLC (NdnPacketsTrace)',
+         'TLC checks on every enumerated configuration (name shapes x optional-field subsets x payload lengths on every 253/65536 boundary before and after shrink x signer models incl. every small reserve/actual pair) that the imperative two-pass encode plus shrink yields exactly the declaratively well-formed tree; each configuration is then built with the real library and real signers and its wire compared entry by entry (type, offset, header width, length) through an independent strict reader, and parse_* must return the caller\'s fields; random configurations and every payload length 0..70000 for three configurations are recorded and accepted only if TLC\'s reference reproduces the observed layout.',
+         'Trusted: TLC, strict_tlv reader, PyCryptodome. Bounded: <=3 components exhaustively, <=8 components / 70000-byte payloads in traces; 9-byte TLV numbers not reachable (32-bit TLC ints). Payload content equality is a harness comparison.',
+         'DESIGN.md 5.3, 6/C01'),
+ 'C02': (True, 'model_checking',
+         'TLA+ range/region/edit algebra (NdnPackets) checked by TLC; recording signer + parser ranges + hashlib/PyCryptodome on the spec ranges; exhaustive single-byte substitution, truncation and TLV-level edits judged with TLC verdict table; recorded ranges and tamper outcomes judged by TLC',
+         'TLC proves on every enumerated configuration that SignedRange/DigestRange are the NDN-specified ones, properly nested, equal to what the marker arithmetic computes after the shrink, and that any change inside them is classed must-reject; on real wires the bytes handed to the signer, the bytes reported by parse_* and the spec ranges are compared for equality, the matching verifiers and an independent PyCryptodome call must accept, and then every byte offset (2-3 substitutions), every truncation and every tabled TLV edit is applied with TLC region/edit table deciding the expected verdict; larger random packets are recorded and judged by TLC.',
+         'Unforgeability of the primitives assumed; exhaustive byte-level tampering on wires <=400 bytes, sampled offsets on larger ones; verdict for the SignatureValue length byte and for out-of-order recognised elements is "either" (C07 territory).',
+         'DESIGN.md 5.3, 6/C02'),
+ 'C10': (True, 'model_checking',
+         'TLA+ specs NdnPit (envelope/reason parameters) and NdnFib (PIT-token echo) checked by TLC; covers and random schedules with envelopes built by an independent NDNLPv2 writer executed on both front-ends and validated by TLC; LP codec round trips against the strict reader',
+         'In NdnPit a packet has the same successor whatever envelope carries it (bare, LpPacket, LpPacket with optional and unknown headers), a Nack completes exactly the pending Interests with the same full name with precisely its reason, fragments are junk; in NdnFib every reply is an envelope carrying the Interest\'s token (bare without token). The real front-ends are driven with envelopes produced by the harness\' own writer: reasons 0 (also as an empty Nack header), 50, 150, 2^32+5, 2^64-1, tokens of length 0/1/8/32/33, fragmented envelopes around matching Data, several token-bearing Interests answered in any order; the recorded traces must be behaviours of the specs.',
+         PIPE_NOTE + ' Token clause decided on appv2 only (the legacy front-end has no reply callback).',
+         'DESIGN.md 5.1, 6/C10'),
+ 'C16': (True, 'model_checking',
+         'TLA+ certificate layout (NdnPacketsCert) and calendar oracle (CertTime) checked by TLC; TLC-enumerated issue requests replayed on self_sign/sign_req/derive_cert with a patched clock; PyCryptodome verification over the spec signed range; recorded issuances judged by TLC',
+         'TLC checks the closed-form calendar against the naively stated one day by day (incl. 2100, 2400, 9999) and cross-checks it with datetime on 400 instants, and checks LawCert (name = key-name/issuer/version, ContentType KEY, validity shape, locator, signed range, exact lengths after shrink) on every enumerated request; each request (subject key type x issuing signer incl. every ECDSA DER length x issuer-id form x start x lifetime x zone x clock) is executed on the real functions, the certificate compared entry by entry, validity text compared with CertTime rendering, the signature verified under the issuing key, and parse_certificate/parse_data compared; random requests are recorded and judged by TLC.',
+         'Years 1970..9999; self_sign/sign_req periods are only required to be well-formed and to contain the issuing instant; aware datetimes are instants, naive ones UTC. PyCryptodome trusted.',
+         'DESIGN.md 5.3, 6/C16'),
+})
+
 NOT_YET = {}
 
 
